@@ -167,6 +167,9 @@ def cases(tier):
                         for pn in (PREFIXES if 'prefix' in opts else ('p',)):
                             yield {'kind': kind, 'cont': cont, 'opts': opts,
                                    'batch': batch, 'n': n, 'pname': pn}
+    for attr in ATTR_NAMES:
+        for mapping in (0, 1):
+            yield {'attr': attr, 'mapping': mapping}
     for cont in CONTAINERS:
         for na in range(0, 4):
             for nb in range(0, 4):
@@ -418,8 +421,56 @@ def run_nested(case):
     return res
 
 
+ATTR_NAMES = ('number', 'key', 'item', 'value', 'length', 'letter', 'even',
+              'odd', 'first', 'last', 'items', 'data', 'index', 'start',
+              'end', 'roman', 'x_y', 'var')
+
+
+def run_attrname(case):
+    """sequence-var-NAME / first-NAME / last-NAME for element attributes
+    whose name is also the name of a sequence variable (or looks odd)"""
+    from DocumentTemplate import HTML
+    res = Res(nontrivial=True)
+    name = case['attr']
+    mapping = case['mapping']
+    t = HTML('<dtml-in seq%s>[<dtml-var sequence-var-%s>;<dtml-if first-%s>1'
+             '<dtml-else>0</dtml-if>;<dtml-if last-%s>1<dtml-else>0</dtml-if>'
+             ';<dtml-var sequence-number>]</dtml-in>'
+             % (' mapping' if mapping else '', name, name, name))
+    n = 0
+    for length in range(1, 5):
+        for xs in itertools.product((1, 2), repeat=length):
+            seq = []
+            for x in xs:
+                if mapping:
+                    seq.append({name: x})
+                else:
+                    e = Elem(0, 0)
+                    e.__dict__[name] = x
+                    seq.append(e)
+            exp = ''.join('[%d;%d;%d;%d]' % (
+                x, i == 0 or xs[i - 1] != x,
+                i == length - 1 or xs[i + 1] != x, i + 1)
+                for i, x in enumerate(xs))
+            try:
+                got = t(seq=seq)
+            except Exception as e:
+                got = 'raised %r' % (e,)
+            n += 1
+            if got != exp:
+                res.violate('sequence-variables', 'attrname:%s' % name,
+                            {'xs': xs, 'mapping': mapping, 'got': got,
+                             'expected': exp}, case)
+                break
+    res.evals = n
+    res.outcome = 'attrname'
+    return res
+
+
 def run(case):
     res = Res()
+    if 'attr' in case:
+        return run_attrname(case)
     if 'nested' in case:
         return run_nested(case)
     if 'xs' in case:
